@@ -293,3 +293,149 @@ UNITS += [
     Unit("metrics.track_future", "metrics.track_future", ["C20", "C01"], _setup_track, _post_track, cfg=_cfg_metrics),
     Unit("metrics.record_done", "metrics.record_done", ["C20", "C18"], _setup_record, _post_record, cfg=_cfg_metrics),
 ]
+
+
+# ---- e. shutdown() and construction of the two base executors (C11, C19, C20) -------------------------------------------------
+def _cfg_base_shutdown():
+    cfg = c_shutdown._cfg_helper()
+    cfg.stable |= {"_CustomizableThreadPoolExecutor__name", "_CustomizableThreadPoolExecutor__shutdown"}
+    return cfg
+
+
+def _setup_base_shutdown(cls_name):
+    def setup(engine, st):
+        ex = sym_inst(engine, st, cls_name, "executor")
+        sid = Val.id(ex.t)
+        hf = "_shutdown" if cls_name != "CustomizableThreadPoolExecutor" else "_CustomizableThreadPoolExecutor__shutdown"
+        h = engine.typed(st, st.get(hf, sid), INST("ShutdownHelper"))
+        engine.cfg.helpers = [Val.id(h.t)]
+        st.assume(Val.is_boolv(st.get("is_shutdown", Val.id(h.t))))
+        kw = ArgPack(fresh("kwargs", Val), "kwargs")
+        ctx = {"starkw": kw, "sid": sid, "ex": ex, "kw": kw, "hid": Val.id(h.t), "cls": cls_name}
+        if cls_name == "SyncExecutor":
+            wait = sym_val(engine, st, "any", "wait")
+            ctx["wait"] = wait
+            return [ex, wait], {}, ctx
+        a = ArgPack(fresh("args", Val), "args")
+        ctx["star"] = a
+        ctx["a"] = a
+        return [ex], {}, ctx
+    return setup
+
+
+def _post_base_shutdown(engine, st, ctx, out):
+    sid, hid = ctx["sid"], ctx["hid"]
+    acq = st.ghost.get("gate@acquire")
+    downs = [(i, e) for i, e in enumerate(st.trace) if e.kind == "call" and e.meth == "shutdown"]
+    gauge = [e for e in st.trace if e.kind == "metric" and e.callee == "EXEC_INPROGRESS"]
+    if acq is None:
+        return [("shutdown consults the shutdown helper", "PC", z3.BoolVal(False), ["C11"])]
+    first = z3.Not(acq)
+    cl = [("the stdlib base class is shut down exactly once, by the first shutdown() only (repeated shutdown is harmless)", "PC",
+           z3.If(first, z3.BoolVal(len(downs) == 1), z3.BoolVal(len(downs) == 0)), ["C11"]),
+          ("after shutdown() the flag is set (submit() refuses from now on)", "PC", Val.b(st.get("is_shutdown", hid)), ["C11"]),
+          ("EXEC_INPROGRESS gauge is decremented exactly once, by the first shutdown()", "PC",
+           z3.If(first, z3.BoolVal(len(gauge) == 1 and gauge[0].meth == "dec"), z3.BoolVal(len(gauge) == 0)), ["C20"])]
+    if downs:
+        ev = downs[0][1]
+        if ctx["cls"] == "SyncExecutor":
+            same = z3.And(z3.BoolVal(len(ev.args) == 1), ev.args[0] == ctx["wait"].t if ev.args else False)
+        else:
+            same = z3.And(z3.BoolVal(not ev.args), engine.to_val(st, ev.star) == ctx["a"].t if ev.star is not None else False)
+        cl.append(("the base class's shutdown gets the caller's arguments (wait, cancel_futures...) unchanged, on this very executor", "PC",
+                   z3.And(same, z3.BoolVal(_same_kw(engine, st, ev.starkw, ctx["kw"]) and not ev.kwargs), ev.recv == sid), ["C11"]))
+        if isinstance(out, Raise):
+            cl.append(("only the base class's own shutdown() error can escape", "EX", out.exc.t == ev.exc if ev.exc is not None else False, ["C18"]))
+    elif isinstance(out, Raise):
+        cl.append(("a repeated shutdown() does not raise", "EX", z3.BoolVal(False), ["C11", "C18"]))
+    return cl
+
+
+def _setup_sync_init(engine, st):
+    oid = st.alloc("SyncExecutor")
+    st.assume(cls_of(z3.IntVal(oid)) == engine.tag("SyncExecutor"))
+    me = Z(ref(oid), INST("SyncExecutor"))
+    name = sym_val(engine, st, "any", "name")
+    return [me], {"name": name}, {"me": me, "name": name, "sid": z3.IntVal(oid)}
+
+
+def _post_sync_init(engine, st, ctx, out):
+    tot = [e for e in st.trace if e.kind == "metric" and e.callee == "EXEC_TOTAL"]
+    inp = [e for e in st.trace if e.kind == "metric" and e.callee == "EXEC_INPROGRESS"]
+    cl = [("the constructor does not raise", "EX", not isinstance(out, Raise), ["C11"])]
+    if isinstance(out, Raise):
+        return cl
+    h = st.get("_shutdown", ctx["sid"])
+    cl.append(("a new executor is alive: it has its own, fresh shutdown helper whose flag is not set", "PC",
+               z3.And(Val.is_ref(h), z3.BoolVal(engine.concrete_id(z3.simplify(h)) is not None), z3.Not(Val.b(st.get("is_shutdown", Val.id(h))))), ["C11"]))
+    cl.append(("the executor remembers its name", "PC", st.get("_name", ctx["sid"]) == ctx["name"].t, ["C19"]))
+    cl.append(("EXEC_TOTAL and EXEC_INPROGRESS are incremented exactly once per constructed executor", "PC",
+               z3.BoolVal(len(tot) == 1 and tot[0].meth == "inc" and len(inp) == 1 and inp[0].meth == "inc"), ["C20"]))
+    return cl
+
+
+UNITS += [
+    Unit("SyncExecutor.shutdown", "sync.SyncExecutor.shutdown", ["C11", "C18", "C20"], _setup_base_shutdown("SyncExecutor"), _post_base_shutdown,
+         cfg=_cfg_base_shutdown, self_cls="SyncExecutor"),
+    Unit("CustomizableThreadPoolExecutor.shutdown", "wrapped.CustomizableThreadPoolExecutor.shutdown", ["C11", "C18", "C20"],
+         _setup_base_shutdown("CustomizableThreadPoolExecutor"), _post_base_shutdown, cfg=_cfg_base_shutdown, self_cls="CustomizableThreadPoolExecutor"),
+    Unit("SyncExecutor.__init__", "sync.SyncExecutor.__init__", ["C11", "C19", "C20"], _setup_sync_init, _post_sync_init, cfg=lambda: make_cfg(concurrent=False), self_cls="SyncExecutor"),
+]
+
+
+def _setup_pool_init(variant):
+    def setup(engine, st):
+        oid = st.alloc("CustomizableThreadPoolExecutor")
+        st.assume(cls_of(z3.IntVal(oid)) == engine.tag("CustomizableThreadPoolExecutor"))
+        me = Z(ref(oid), INST("CustomizableThreadPoolExecutor"))
+        name = sym_val(engine, st, "str", "name")
+        kw = {"name": name} if variant != "unnamed" else {}
+        if variant == "prefix given":
+            kw["thread_name_prefix"] = sym_val(engine, st, "str", "prefix")
+        return [me], kw, {"me": me, "name": name, "sid": z3.IntVal(oid), "variant": variant, "kw": kw}
+    return setup
+
+
+def _post_pool_init(engine, st, ctx, out):
+    from pyvc.b_ops import str_format
+    tot = [e for e in st.trace if e.kind == "metric" and e.callee == "EXEC_TOTAL"]
+    inp = [e for e in st.trace if e.kind == "metric" and e.callee == "EXEC_INPROGRESS"]
+    inits = [e for e in st.trace if e.kind == "call" and e.meth == "__init__"]
+    cl = [("the constructor raises only what ThreadPoolExecutor.__init__ raises", "EX",
+           z3.BoolVal(not isinstance(out, Raise) or any(e.exc is not None for e in inits)), ["C11"])]
+    if isinstance(out, Raise):
+        return cl
+    sid = ctx["sid"]
+    h = st.get("_CustomizableThreadPoolExecutor__shutdown", sid)
+    cl.append(("a new executor is alive: it has its own, fresh shutdown helper whose flag is not set", "PC",
+               z3.And(Val.is_ref(h), z3.BoolVal(engine.concrete_id(z3.simplify(h)) is not None), z3.Not(Val.b(st.get("is_shutdown", Val.id(h))))), ["C11"]))
+    cl.append(("EXEC_TOTAL and EXEC_INPROGRESS are incremented exactly once per constructed executor", "PC",
+               z3.BoolVal(len(tot) == 1 and tot[0].meth == "inc" and len(inp) == 1 and inp[0].meth == "inc"), ["C20"]))
+    ok = len(inits) == 1
+    cl.append(("ThreadPoolExecutor.__init__ runs exactly once and never sees the `name` keyword", "PC", z3.BoolVal(ok and "name" not in inits[0].kwargs), ["C19", "C11"]))
+    if ok:
+        ev = inits[0]
+        sk = engine.resolve(st, ev.starkw) if ev.starkw is not None else None
+        kd = st.objreg.get(engine.concrete_id(sk.t)) if isinstance(sk, Z) and sk.ty == "kwdict" else None
+        known = dict(ev.kwargs)
+        if kd is not None:
+            known.update({k_: engine.to_val(st, v_) for k_, v_ in kd.known.items()})
+        pref = known.get("thread_name_prefix")
+        if ctx["variant"] == "named":
+            is_default = ctx["name"].t == Val.strv(z3.IntVal(STRINGS.get("default")))
+            want = Val.strv(str_format(z3.IntVal(STRINGS.get("ThreadPoolExecutor-%s")), ctx["name"].t))
+            cl.append(("a named pool names its threads 'ThreadPoolExecutor-<name>' (the default name leaves the stdlib prefix alone)", "PC",
+                       z3.If(is_default, z3.BoolVal(pref is None), (pref == want) if pref is not None else z3.BoolVal(False)), ["C19"]))
+        elif ctx["variant"] == "prefix given":
+            cl.append(("an explicit thread_name_prefix is passed on unchanged", "PC", (pref == ctx["kw"]["thread_name_prefix"].t) if pref is not None else z3.BoolVal(False), ["C19"]))
+        else:
+            cl.append(("an unnamed pool leaves the stdlib thread names alone", "PC", z3.BoolVal(pref is None), ["C19"]))
+    return cl
+
+
+for v in ("named", "prefix given", "unnamed"):
+    UNITS.append(Unit("CustomizableThreadPoolExecutor.__init__[%s]" % v, "wrapped.CustomizableThreadPoolExecutor.__init__", ["C11", "C19", "C20"],
+                      _setup_pool_init(v), _post_pool_init, cfg=lambda: make_cfg(concurrent=False), self_cls="CustomizableThreadPoolExecutor"))
+
+
+REPLAYS = [("C20", "SyncExecutor.shutdown", "replay/c20_sync_shutdown_gauge.py")]
